@@ -741,7 +741,10 @@ def stream_parse_corrupt_v3(ctx, n):
 def rand_reaction(rng, texts):
     from chython import ReactionContainer
     pick = lambda k: [rng.choice(texts)[1].copy() for _ in range(k)]
-    r = ReactionContainer(pick(rng.choice([0, 1, 1, 2, 3])), pick(rng.choice([0, 1, 1, 2])), pick(rng.choice([0, 0, 0, 1, 2])))
+    a, b, c = pick(rng.choice([0, 1, 1, 2, 3])), pick(rng.choice([0, 1, 1, 2])), pick(rng.choice([0, 0, 0, 1, 2]))
+    if not (a or b or c):
+        a = pick(1)
+    r = ReactionContainer(a, b, c)
     r.name = rng.choice(['', rand_text(rng, 1, 20), ' x '])
     r.meta.update(rand_meta(rng, wf=rng.random() < 0.7))
     return r
